@@ -338,6 +338,15 @@ def rule_stack(rep, res, entry=None, sym="bs"):
             if not st:
                 continue
             ok = any(s_.d["val"].tag("tail_filled") or s_.d["val"].tag("row_select") for s_ in st)
+            selfred = [s_ for s_ in st if s_.d["val"].tag("tail_filled_from_self")]
+            if selfred:
+                how_ = selfred[0].d["val"].tag("tail_filled_from_self")
+                rep.violated("R-STACK", "padded rows of a per-row parameter take the value of a real row", where=selfred[0].loc,
+                             construct=how_[1][:80], entry=entry, config=res.config,
+                             msg=f"the padded rows are filled with the `{how_[0]}` of the whole padded vector: the zero padding itself takes part in "
+                                 f"that extremum, so the padded rows are bounded by 0 (+ eps) and are infeasible as soon as the lower bounds keep "
+                                 f"the total away from 0 — the call fails for batch sizes that do not divide the number of samples")
+                continue
             rep.check("R-STACK", "per-row parameters of a padded batch get an explicit value for the padded rows", ok, where=st[0].loc,
                       construct=st[0].text(), entry=entry, config=res.config,
                       msg="this per-sample Parameter enters a constraint and receives the iterated array as it is: on the padded last batch "
@@ -914,6 +923,120 @@ def rule_extent_coincidence(rep, res, entry=None, rule="R-DISPATCH"):
         rep.violated(rule, "no dispatch on a coincidence of unrelated extents", where=ev.loc, construct=ev.text(), entry=entry, config=res.config,
                      msg=f"the branch is chosen by whether the extent of axis {a} equals that of axis {b}: whenever the two happen to coincide "
                          f"(e.g. as many samples as channels) the other interpretation of the argument is taken")
+
+
+def rule_last_iteration_wins(rep, res, entry=None, rule="R-COVER"):
+    """a verdict over ALL items of a loop is accumulated (`ok = ok and …`, `ok &= …`, an early exit when it fails): a flag that is simply
+    re-assigned in every iteration (`ok = test(item)`) and read after the loop reports the LAST item only.  Decided on the syntax of every
+    reached function; only flags assigned from a predicate (comparison, np.array_equal / all / any / isclose / allclose) are instances."""
+    entry = entry or res.entry
+    fns = {ev.d["callee"] for ev in res.events("call")} | {res.fn}
+    preds = ("array_equal", "array_equiv", "all", "any", "isclose", "allclose", "equal", "issubset")
+    n = 0
+    for fn in sorted(fns, key=lambda f: f.qual):
+        for loop in [x for x in ast.walk(fn.node) if isinstance(x, (ast.For, ast.While))]:
+            for st in ast.walk(loop):
+                if not (isinstance(st, ast.Assign) and len(st.targets) == 1 and isinstance(st.targets[0], ast.Name)):
+                    continue
+                v = st.targets[0].id
+                val = st.value
+                is_pred = isinstance(val, ast.Compare) or (isinstance(val, ast.Call) and (
+                    (isinstance(val.func, ast.Attribute) and val.func.attr in preds) or (isinstance(val.func, ast.Name) and val.func.id in preds)))
+                if not is_pred:
+                    continue
+                names_in_val = {x.id for x in ast.walk(val) if isinstance(x, ast.Name)}
+                read_after = any(isinstance(x, ast.Name) and x.id == v and isinstance(x.ctx, ast.Load) and getattr(x, "lineno", 0) > loop.end_lineno
+                                 for x in ast.walk(fn.node))
+                if not read_after:
+                    continue
+                n += 1
+                tested_in_loop = any(isinstance(t, (ast.If, ast.IfExp, ast.Assert, ast.While)) and v in {x.id for x in ast.walk(t.test) if isinstance(x, ast.Name)}
+                                     for t in ast.walk(loop))
+                aug = any(isinstance(t, ast.AugAssign) and isinstance(t.target, ast.Name) and t.target.id == v for t in ast.walk(loop))
+                ok = (v in names_in_val) or tested_in_loop or aug
+                rep.check(rule, "a verdict over all items of a loop is accumulated", ok, where=fn.loc(st), construct=norm_text(st)[:80], entry=entry,
+                          config=res.config,
+                          msg=f"`{v}` is overwritten in every iteration and read after the loop: only the LAST item decides (an earlier item that "
+                              f"fails the test is forgotten)")
+    return n
+
+
+def rule_fixed_column(rep, res, entry=None, arrays=("A",), rule="R-VALUE"):
+    """a function that addresses the columns of the capture matrix through a VARIABLE source index (`A[:, jdx]`, `A[:, rest]`) does not also
+    address one fixed column (`A[:, 0]`): the fixed column is the walked / removed source only when that index happens to be 0.
+    Decided on the syntax of every reached function (belief contradiction within one function)."""
+    entry = entry or res.entry
+    fns = {ev.d["callee"] for ev in res.events("call")} | {res.fn}
+    n = 0
+    for fn in sorted(fns, key=lambda f: f.qual):
+        var_cols, fixed = [], []
+        for sub in ast.walk(fn.node):
+            if not (isinstance(sub, ast.Subscript) and isinstance(sub.value, ast.Name) and sub.value.id in arrays
+                    and isinstance(sub.slice, ast.Tuple) and len(sub.slice.elts) == 2 and isinstance(sub.slice.elts[0], ast.Slice)
+                    and sub.slice.elts[0].lower is None and sub.slice.elts[0].upper is None):
+                continue
+            c = sub.slice.elts[1]
+            if isinstance(c, ast.Name):
+                var_cols.append(sub)
+            elif isinstance(c, ast.Constant) and isinstance(c.value, int) and not isinstance(c.value, bool):
+                fixed.append(sub)
+        if not var_cols:
+            continue
+        n += 1
+        for sub in fixed:
+            rep.violated(rule, "columns of the capture matrix are addressed by the source index in use", where=fn.loc(sub), construct=norm_text(sub),
+                         entry=entry, config=res.config,
+                         msg=f"`{norm_text(sub)}` is one fixed column although the function selects the walked / removed source by a variable "
+                             f"(`{norm_text(var_cols[0])}`): the capture taken out per step belongs to another source whenever that index is not "
+                             f"{sub.slice.elts[1].value}")
+        if not fixed:
+            rep.holds(rule, "columns of the capture matrix are addressed by the source index in use", where=fn.loc(var_cols[0]),
+                      construct=norm_text(var_cols[0]), entry=entry, config=res.config)
+    return n
+
+
+def rule_extremum_siblings(rep, res, entry=None, rule="R-VALUE"):
+    """sibling stores disagree: an array that collects an extremum (`T[m] = X.min(axis=0)`) receives, at another store of the same
+    function, ONE PARTICULAR ROW of a table (`T[m] = Y[0]`, `Y[-1]`) — the first / last row of a table is its column-wise extremum only
+    if every column is sorted, which a lexicographic order of the rows does not give.  Decided on the syntax of every reached function."""
+    entry = entry or res.entry
+    fns = {ev.d["callee"] for ev in res.events("call")} | {res.fn}
+    n_inst = 0
+    def kind(v):
+        for n in ast.walk(v):
+            if isinstance(n, ast.Call):
+                nm = n.func.attr if isinstance(n.func, ast.Attribute) else n.func.id if isinstance(n.func, ast.Name) else None
+                if nm in ("min", "max", "amin", "amax", "nanmin", "nanmax", "minimum", "maximum"):
+                    return "min" if "min" in nm else "max"
+        if isinstance(v, ast.Subscript):
+            sl = v.slice
+            if isinstance(sl, ast.UnaryOp) and isinstance(sl.op, ast.USub) and isinstance(sl.operand, ast.Constant):
+                return "pick"
+            if isinstance(sl, ast.Constant) and isinstance(sl.value, int) and not isinstance(sl.value, bool):
+                return "pick"
+        return None
+    for fn in sorted(fns, key=lambda f: f.qual):
+        groups = {}
+        for st in ast.walk(fn.node):
+            if isinstance(st, ast.Assign) and len(st.targets) == 1 and isinstance(st.targets[0], ast.Subscript) \
+                    and isinstance(st.targets[0].value, ast.Name):
+                groups.setdefault(st.targets[0].value.id, []).append((st, kind(st.value)))
+        for name, sts in groups.items():
+            ext = [k for _, k in sts if k in ("min", "max")]
+            picks = [st for st, k in sts if k == "pick"]
+            if not ext:
+                continue
+            n_inst += 1
+            for st in picks:
+                rep.violated(rule, "an array of extrema receives an extremum at every store", where=fn.loc(st), construct=norm_text(st)[:80],
+                             entry=entry, config=res.config,
+                             msg=f"`{name}` collects a column-wise {ext[0]} at its other store(s), but here it receives one particular row "
+                                 f"(`{norm_text(st.value)[:40]}`): the first / last row of a table holds the column-wise extremes only if every "
+                                 f"column is sorted — rows in lexicographic order sort the first column only")
+            if not picks:
+                rep.holds(rule, "an array of extrema receives an extremum at every store", where=fn.loc(sts[0][0]), construct=f"stores into {name}",
+                          entry=entry, config=res.config)
+    return n_inst
 
 
 def rule_iter_arrays_per_sample(rep, res, entry=None, rule="R-STACK", sample=("N",)):
